@@ -44,7 +44,10 @@ WIDE = {'cols': [3, 7, 299], 'labels_dtypes': ['uint8', 'int8', 'int16', 'list']
 
 
 MAGNITUDES = {'big': (np.float64, lambda v: v + 1000.0), 'f32big': (np.float32, lambda v: float(np.float32(v + 200.0))),
-              'tiny': (np.float64, lambda v: v * 1e-17)}      # costs far outside the usual range of negative log-probabilities
+              'tiny': (np.float64, lambda v: v * 1e-17),      # costs far outside the usual range of negative log-probabilities
+              'e100': (np.float64, lambda v: v * 1e100),      # finite, but beyond the range of single precision
+              'int25': (np.float64, lambda v: float(round(v * 10) + 2 ** 25))}      # integer-valued costs that single precision cannot tell apart
+UNIT = {'tiny': 1e-17, 'e100': 1e100}
 
 
 def rows_for(C, dtype='f64'):
@@ -89,7 +92,7 @@ def shards(tier):
                 for p in itertools.product(range(R), repeat=2):
                     out.append({'C': C, 'T': t, 'prefix': list(p)})
     # the same search on matrices of other dtypes (float32, int64): unusual but legal inputs
-    for dt in ('f32', 'i64', 'big', 'f32big', 'tiny'):
+    for dt in ('f32', 'i64', 'big', 'f32big', 'tiny', 'e100', 'int25'):
         for t in range(1, b['Tdtype'] + 1):
             out.append({'C': 3, 'T': t, 'prefix': [], 'dtype': dt})
     # a 300-symbol output layer (blank = 299) with the labels held in small-integer numpy arrays
@@ -223,6 +226,14 @@ def check_long(case, ctx):
     pos = [int(x) for x in align_text(A.copy(), np.asarray(labels), blank)]
     seq = [int(x) for x in force_align(A.copy(), list(labels), blank, return_seq_positions=True)]
     ctx.executed(2)
+    # the labels may be held in a narrow integer array (they are below 256): the frame positions are not labels and must not be squeezed into it
+    for ldt in ('uint8', 'int8', 'int16'):
+        pos_n = [int(x) for x in align_text(A.copy(), np.asarray(labels, dtype=ldt), blank)]
+        ctx.executed()
+        if pos_n != pos:
+            ctx.violation('positions-most-confident-frame', f'{K}/align_text/depends-on-label-dtype',
+                          f'{desc}: labels as {ldt} array give positions {pos_n[:4]}..{pos_n[-3:]}, as int64 {pos[:4]}..{pos[-3:]}')
+            return
     conf = (-A).max(axis=-1)
     frames = {}
     for t, i in enumerate(seq):
@@ -253,7 +264,7 @@ def check_case(case, ctx):
     M = [RA[i] for i in rows]
     T = len(M)
     A = np.asarray(M, dtype={'f64': np.float64, 'f32': np.float32, 'i64': np.int64}[dt] if dt not in MAGNITUDES else MAGNITUDES[dt][0])
-    unit = 1e-17 if dt == 'tiny' else 1.0                    # tolerances are relative to the magnitude of the costs
+    unit = UNIT.get(dt, 1.0)                                 # tolerances are relative to the magnitude of the costs
     if C == 300:
         return check_wide(case, ctx, M)
     best = brute(M, blank)
